@@ -1,8 +1,9 @@
 """C14 — deductive part: exception safety of the functions of the parse path that are under contract.
 `tokenize` (only FormulaSyntaxError can escape; every partial operation is a discharged safety obligation),
 `Token.update`, `OperatorResolver._resolve/resolve` and `DefaultOperatorResolver.resolve` (raises only the formula
-syntax error; the sign-run loop terminates: variant len(symbol)).  tokens_to_ast and the operator implementations
-are decided by the bounded token-alphabet enumeration."""
+syntax error; the sign-run loop terminates: variant len(symbol)), and `tokens_to_ast` (vf/proofs/c14_ast.py: typed-stack invariant,
+all stack/queue/table accesses safe, the three while loops terminate).  The operator implementations' own argument checks are
+decided by the bounded token-alphabet enumeration."""
 from vf.pyvc.run import run_contracts
 
 
@@ -18,3 +19,6 @@ def run_proofs(ctx):
     from vf.proofs.small import run_small
 
     run_small(ctx, "C14")
+    from vf.proofs import c14_ast
+
+    c14_ast.run_proofs(ctx)
